@@ -127,6 +127,14 @@ func (Engine) Run(c *simkit.Choices, x *simkit.Ctx) *simkit.Violation {
 					sc.Reads = append(sc.Reads, 1+c.N(sc.BufSize))
 				}
 			}
+			if c.N(6) == 0 {
+				// an empty read (0, nil) now and then: "nothing happened", not EOF
+				sc.Reads = append(sc.Reads, 0)
+				if c.Bool() {
+					sc.Reads[0], sc.Reads[len(sc.Reads)-1] = sc.Reads[len(sc.Reads)-1], sc.Reads[0]
+				}
+				st.Fault("empty-read")
+			}
 			sc.EOFWithData = c.Bool()
 			if c.N(3) == 0 {
 				sc.ReaderKind = 1 + c.N(simkit.NumReaderKinds-1)
